@@ -108,6 +108,39 @@ Proof.
   - apply node_frame_stopped. apply node_frame_task; auto.
 Qed.
 
+(* ================================================================== selection is contained in the dependency closure of the roots *)
+Inductive breach (s : sources) : nat -> nat -> Prop :=
+| breach_refl i : breach s i i
+| breach_step i n d j : node_at s i = Some n -> In d (node_deps n) -> breach s d j -> breach s i j.
+
+Lemma breach_trans s i j k : breach s i j -> breach s j k -> breach s i k.
+Proof. induction 1; intro Hk; [exact Hk | eapply breach_step; eauto]. Qed.
+
+Lemma closure_sound s roots : forall fuel todo acc,
+  (forall x, In x todo -> exists r, In r roots /\ breach s r x) ->
+  (forall x, In x acc -> exists r, In r roots /\ breach s r x) ->
+  forall x, In x (closure fuel s todo acc) -> exists r, In r roots /\ breach s r x.
+Proof.
+  induction fuel as [|f IH]; intros todo acc Ht Ha x Hx; cbn [closure] in Hx; [apply Ha, Hx|].
+  destruct todo as [|t0 todo']; [apply Ha, Hx|].
+  apply IH in Hx; auto.
+  - intros y Hy. apply in_flat_map in Hy as (i & Hi & Hy).
+    apply filter_In in Hi as [Hi _].
+    destruct (node_at s i) as [n|] eqn:En; [|destruct Hy].
+    destruct (Ht i Hi) as (r & Hr & Hb). exists r. split; [exact Hr|].
+    eapply breach_trans; [exact Hb|]. eapply breach_step; [exact En | exact Hy | apply breach_refl].
+  - intros y Hy. apply in_app_or in Hy as [Hy|Hy]; [apply Ha, Hy|].
+    apply filter_In in Hy as [Hy _]. apply Ht, Hy.
+Qed.
+
+Theorem selection_sound s roots x :
+  In x (selection s roots) -> exists r, In r roots /\ breach s r x.
+Proof.
+  unfold selection. apply closure_sound.
+  - intros y Hy. exists y. split; [exact Hy | apply breach_refl].
+  - intros y [].
+Qed.
+
 (* ================================================================== prefixes of the walk *)
 Lemma nth_map_repeat_rt0 n i : nth i (map rt_status (repeat rt0 n)) TNone = TNone.
 Proof.
@@ -393,6 +426,50 @@ Proof.
   destruct (target_step_at i t Hi Hn) as [E|_ Hc Hx|Hs _|Hs _|dh b1 b3 Hs _ _ _ _ _ _]; try congruence.
   - rewrite E. auto.
   - auto.
+Qed.
+
+(* ---------------------------------------------------------------- C12: only selected targets' commands run *)
+Lemma step_exec_selected k : k < n ->
+  b_exec (P (S k)) = b_exec (P k) \/
+  exists t, node_at s k = Some (NTarget t) /\ existsb (Nat.eqb k) (selection s roots) = true /\
+            b_exec (P (S k)) = b_exec (P k) ++ [td_label t].
+Proof.
+  intro Hk. unfold P at 1 3. rewrite build_prefix_S. fold (P k).
+  assert (Hlen : k < rt_len (P k)) by (rewrite prefix_len; lia).
+  destruct (process_node_cases H cfg s (selection s roots) (P k) k)
+    as [E | [(st & E & _) | (t & Hn & Hsel & _ & _ & Hpt)]].
+  - left. rewrite E. reflexivity.
+  - left. rewrite E. apply b_exec_mark.
+  - pose proof (process_target_all H cfg s k t (P k) Hall) as Ho.
+    destruct (task_cases H cfg s k t (P k) _ Ho Hlen) as [_ Hc].
+    assert (Hx : b_exec (Build.process_target H cfg s k t (P k)) = b_exec (P k) \/
+                 b_exec (Build.process_target H cfg s k t (P k)) = b_exec (P k) ++ [td_label t]).
+    { destruct Hc as [[_ [_ Fx _]] | [[_ [_ _ _ _ _ _ R7 _]] | [_ (dh & b1 & b3 & Hd & C1 & X1 & E1 & Hok & Hb')]]].
+      - exact Fx.
+      - left. exact R7.
+      - rewrite Hb', b_exec_mark, (eo_exec _ _ _ _ _ _ Hok). unfold exec_start.
+        destruct (null (td_cmd t)); [left; exact X1 | right; rewrite b_exec_add_exec, X1; reflexivity]. }
+    assert (Hst : forall x, b_exec (stopped x) = b_exec x) by reflexivity.
+    destruct Hpt as [E | [E _]]; rewrite E, ?Hst; (destruct Hx as [Hx|Hx]; [left; exact Hx | right; exists t; auto]).
+Qed.
+
+Theorem exec_only_selected l :
+  In l (br_exec (build cfg s roots w c)) ->
+  exists i t, i < n /\ existsb (Nat.eqb i) (selection s roots) = true /\
+              node_at s i = Some (NTarget t) /\ td_label t = l.
+Proof.
+  rewrite build_is_prefix. cbn [br_exec]. fold n. fold (P n).
+  assert (Hgen : forall k, k <= n -> In l (b_exec (P k)) ->
+            exists i t, i < k /\ existsb (Nat.eqb i) (selection s roots) = true /\
+                        node_at s i = Some (NTarget t) /\ td_label t = l).
+  { induction k as [|k IH]; intros Hk Hin.
+    - unfold P, Build_ideal.build_prefix, build_init in Hin. simpl in Hin. destruct Hin.
+    - destruct (step_exec_selected k ltac:(lia)) as [E | (t & Hn & Hsel & E)]; rewrite E in Hin.
+      + destruct (IH ltac:(lia) Hin) as (i & t & Hi & R). exists i, t. split; [lia | exact R].
+      + apply in_app_or in Hin as [Hin | [<- | []]].
+        * destruct (IH ltac:(lia) Hin) as (i & t' & Hi & R). exists i, t'. split; [lia | exact R].
+        * exists k, t. repeat split; auto. }
+  intro Hin. destruct (Hgen n (le_n _) Hin) as (i & t & Hi & R). exists i, t. split; [exact Hi | exact R].
 Qed.
 
 End Walk.
